@@ -1941,7 +1941,11 @@ void BW_MidiSequencer::handleEvent(size_t track, const BW_MidiSequencer::MidiEve
         if(evtype == MidiEvent::ST_DEVICESWITCH)
         {
             if(m_interface->onDebugMessage)
-                m_interface->onDebugMessage(m_interface->onDebugMessage_userData, "Switching another device: %s", data);
+            {
+                // The payload of the meta event is not NUL-terminated
+                const std::string devName(data, size_t(length));
+                m_interface->onDebugMessage(m_interface->onDebugMessage_userData, "Switching another device: %s", devName.c_str());
+            }
             if(m_interface->rt_deviceSwitch)
                 m_interface->rt_deviceSwitch(m_interface->rtUserData, track, data, size_t(length));
             return;
